@@ -752,7 +752,7 @@ class Rewriter:
             return x.context.complex(real, -imag)
 
         if x.kind == "conjugate":
-            return x
+            return x.operands[0]
 
     def real(self, expr):
 
